@@ -169,7 +169,14 @@ pub fn run(prop: &str, outdir: &str, seed: u64, thorough: bool) -> serde_json::V
         attempts += 1;
         let mut r = rng.fork();
         let depth = r.range(0, 3) as u32;
-        let (sql, _) = { let mut g = QGen::new(&mut r, &w.specs); g.query(depth) };
+        // one query in eight uses the same sub-relation twice (a CTE joined or united with itself): the two occurrences
+        // are equal as relations and may carry different rules in a derivation
+        let shared = ["WITH agg AS (SELECT t.order_id AS oid, SUM(t.price) AS s FROM items AS t GROUP BY t.order_id) SELECT a.oid AS o, SUM(b.s) AS s FROM agg AS a JOIN agg AS b ON a.oid = b.oid GROUP BY a.oid",
+            "WITH w AS (SELECT t.user_id AS u, AVG(t.amount) AS m FROM orders AS t GROUP BY t.user_id) SELECT a.u AS u, a.m AS m1, b.m AS m2 FROM w AS a JOIN w AS b ON a.u = b.u",
+            "WITH w AS (SELECT t.id AS i, t.age AS a FROM users AS t WHERE t.age > 30) SELECT x.a AS a1, y.a AS a2 FROM w AS x JOIN w AS y ON x.i = y.i",
+            "WITH w AS (SELECT t.city AS c, COUNT(*) AS n FROM users AS t GROUP BY t.city) SELECT x.c AS c, x.n + y.n AS n FROM w AS x JOIN w AS y ON x.c = y.c",
+            "WITH w AS (SELECT t.age AS a FROM users AS t) SELECT x.a AS a FROM w AS x UNION SELECT y.a AS a FROM w AS y"];
+        let (sql, _) = if r.chance(1, 8) { st.bump("shared_subrelation_queries"); (r.pick(&shared).to_string(), vec![]) } else { let mut g = QGen::new(&mut r, &w.specs); g.query(depth) };
         let rel = match catch_unwind(AssertUnwindSafe(|| to_relation(&w, &sql))) { Ok(Ok(rel)) => rel, Ok(Err(_)) => { st.bump("query_rejected"); continue; } Err(_) => { st.bump("query_panicked"); continue; } };
         let syn = r.chance(1, 2);
         let dp_entry = r.chance(2, 3);
